@@ -10,10 +10,23 @@ MCPartOrd(p) == CASE p = "" -> 0 [] p = "a" -> 1 [] p = "b" -> 2
 UpSeqs == UNION {[1..n -> FK \X {0, 1}] : n \in 0..MaxUps}
 MCPrograms == {[ups |-> u, chk |-> c] : u \in UpSeqs, c \in FK \cup {NoFK}}
 
+(* simulation: single-update programs with three possible checks plus a few two-update ones *)
+SimChecks == {NoFK, <<"x", <<"a">>>>, <<"y", <<"", "b">>>>}
+TwoUps == LET a == <<"x", <<"a">>>> b == <<"x", <<"a", "">>>> c == <<"y", <<>>>> IN
+          {<<<<a, 1>>, <<a, 0>>>>, <<<<a, 0>>, <<a, 1>>>>, <<<<a, 1>>, <<b, 1>>>>, <<<<c, 1>>, <<c, 1>>>>,
+           <<<<b, 0>>, <<c, 1>>>>}
+SimPrograms == {[ups |-> u, chk |-> c] : u \in UNION {[1..n -> FK \X {0, 1}] : n \in 0..1} \cup TwoUps,
+                                        c \in SimChecks}
+
 Bound == /\ ncommit' <= MaxCommits
          /\ \A s \in 1..nsess' : Len(slog'[s]) <= MaxLog
          /\ Len(out') <= MaxOut
          /\ (ActorsOnly1 /\ last'.o = "action" => last'.s = 1)    \* session 2 only receives
 EmitBounded == Bound /\ EmitStep
+(* simulation: keep the walk inside the bounds; open both sessions before using them *)
+SimBound == /\ ncommit' <= MaxCommits
+            /\ \A s \in 1..nsess' : Len(slog'[s]) <= MaxLog
+            /\ Len(out') <= MaxOut
+            /\ (IsSessOp(last'.o) => nsess = MaxSessions)
 EmitSim == Len(hist) = SimDepth => PrintT("REPLAY " \o ToJson([h |-> hist, e |-> last]))
 ================================================================================
